@@ -11,7 +11,8 @@ EXTENDS Scopes
 
 CONSTANTS MaxStmts, MaxDepth, Kinds,    \* Kinds: which compound statements to generate
           GenVars,                      \* variables used by generated assignments / uses (subset of Vars)
-          SimpleKinds                   \* which simple statements to generate
+          SimpleKinds,                  \* which simple statements to generate
+          Shape                         \* "any", or "loop": the function body is exactly one for/while loop
 
 \* shapes of compound statements: the names of their blocks in order
 Shapes ==
@@ -47,6 +48,7 @@ VisibleDefs == UNION {{stack[i].cur[j] : j \in {m \in 1..Len(stack[i].cur) : sta
 
 AddSimple ==
     /\ ~done /\ nid <= MaxStmts /\ ~AfterJump
+    /\ (Shape = "loop" => Len(stack) > 1)
     /\ \E s \in ({[k |-> "assign", v |-> w, id |-> nid] : w \in GenVars} \cup {[k |-> "use", v |-> w, id |-> nid] : w \in GenVars}
                  \cup {[k |-> "defg", v |-> w, id |-> nid] : w \in GenVars} \cup {[k |-> "defn", v |-> w, id |-> nid] : w \in GenVars}
                  \cup {[k |-> "callg", t |-> d.id, v |-> d.v, w |-> d.k = "defn", id |-> nid] : d \in VisibleDefs}
@@ -59,7 +61,9 @@ AddSimple ==
 Open ==
     /\ ~done /\ nid < MaxStmts /\ Len(stack) <= MaxDepth /\ ~AfterJump     \* a compound statement needs a body statement
     /\ \E kind \in Kinds : \E shape \in Shapes[kind] :
-         stack' = Append(stack, Frame(kind, shape, nid))
+         /\ (Shape = "loop" /\ Len(stack) = 1) => (kind \in {"for", "while", "whiletrue"} /\ Top.cur = << >> /\ shape = <<"body">>)
+         /\ (Shape = "loop" /\ Len(stack) > 1) => kind \notin {"for", "while", "whiletrue"}
+         /\ stack' = Append(stack, Frame(kind, shape, nid))
     /\ nid' = nid + 1 /\ UNCHANGED done
 
 \* finish the current block of the top frame and start its next block (blocks other than `orelse`
@@ -166,6 +170,7 @@ AnyStmt(block, kind) ==       \* does the program contain a statement with the g
                       [] kind = "whiletrue" -> s.k = "while" /\ s.true
                       [] kind = "bodyleaves" -> s.k \in {"while", "for"} /\ s.body # << >>
                                                 /\ s.body[Len(s.body)].k \in {"break", "return", "raise"}
+                      [] kind = "break" -> s.k = "break"
         IN \/ here
            \/ s.k \in {"if", "while", "for"} /\ (AnyStmt(s.body, kind) \/ AnyStmt(s.orelse, kind))
            \/ s.k = "with" /\ AnyStmt(s.body, kind)
@@ -190,6 +195,9 @@ UseVerdict2(prog, rs, rl, u, reported) ==
             THEN "dev:always-entered-loop-first-iteration"
        \* (c) the loop body is visited a second time even when its first pass always leaves the loop
        ELSE IF AnyStmt(prog, "bodyleaves") /\ missing = {} THEN "dev:loop-body-revisited-after-unconditional-exit"
+       \* (c') the second visit of a loop body starts from the state AFTER the loop, which includes the states at the
+       \*      break statements: an assignment that is always followed by a break is considered able to reach the body
+       ELSE IF AnyStmt(prog, "break") /\ missing = {} THEN "dev:loop-second-visit-starts-from-break-state"
        \* (d) suppressing_subscope finds the assignments of its block by comparing name_to_all_definition_nodes before
        \*     and after; when the block is visited a second time (finally clause, loop body) the nodes are already
        \*     there, so the assignments made inside a try body / suppressing with are dropped after the block
